@@ -91,3 +91,19 @@ Qed.
 (* the two countings agree on programs without ternary guards *)
 Lemma counted_no_ternary d : dp_guard d <> GTernary -> counted false d = counted true d.
 Proof. unfold counted, emitted. destruct (dp_guard d); congruence. Qed.
+
+(* the counting of jdf_assign_ldef_index before its repair: for a ternary guard the count taken after
+   the true branch was overwritten by the false branch's, so a dependency whose TRUE branch introduces
+   more local definitions than its false branch was under-counted *)
+Definition dep_high_old (base : nat) (d : dep) : nat :=
+  base + dp_ldefs d + (match dp_guard d with GTernary => dp_cf d | _ => dp_ct d end).
+Definition ldef_counted_old (f : func) : nat :=
+  fold_left (fun m fl => fold_left (fun m d => Nat.max m (dep_high_old (fn_pdefs f) d)) (fl_deps fl) m)
+            (fn_flows f) (fn_pdefs f).
+Theorem ternary_ldef_counting_refuted : exists f, ldef_counted_old f < ldef_needed f.
+Proof.
+  exists {| fn_locals := 1; fn_pdefs := 0;
+            fn_flows := [ {| fl_access := AccRead;
+                             fl_deps := [ {| dp_in := false; dp_guard := GTernary; dp_ldefs := 0; dp_ct := 1; dp_cf := 0 |} ] |} ] |}.
+  vm_compute. lia.
+Qed.
